@@ -56,10 +56,10 @@ PROPS['C07'] = dict(
     modules=['specs.options', 'contracts.options', 'lemmas.options'],
     bounded=['bounded.options'],
     level='proof',
-    design_ref='DESIGN.md §4 C07',
-    technique='deductive: VCs from the real AST of the validate_value family, set_value and get_option_and_value_for (opaque objects) + sidecar contracts; the precedence merges (initialize_from_*), buildtype expansion and set_option are bounded-exhaustive over all 2^8 source subsets',
-    level_text='Validity: every validate_value (string, boolean, integer with range, combo/feature, string array with choices) is proved to reject exactly the values violating type/choices/range and to return a valid value; set_value stores the validated value. Resolution: augment > yielding parent > own value is proved on the real get_option_and_value_for. The eight-step precedence itself is checked exhaustively over all source subsets through the real OptionStore (bounded stand-in).',
-    level_note='Assumed: listify_array_value, key normalisation and option lookup (trusted contracts); int() of a string through the abstract py_int_ok/py_int_val; mlog calls are effects. NOT proved (bounded only): initialize_from_top_level_project_call / initialize_from_subproject_call, set_option incl. buildtype and prefix dependents.',
+    design_ref='DESIGN.md §4 C07, §0.6',
+    technique='deductive: VCs from the real AST of the validate_value family, set_value, get_option_and_value_for, the two precedence merges initialize_from_top_level_project_call / initialize_from_subproject_call (dict iteration with a ghost visited-set invariant per loop, option keys opaque, statement for an arbitrary key), prefix_split_options / first_handle_prefix / hard_reset_from_prefix / reset_prefixed_options + sidecar contracts; set_option incl. buildtype expansion and the end-to-end resolution through the real OptionStore bounded-exhaustive over all 2^8 source subsets',
+    level_text='Validity: every validate_value (string, boolean, integer with range, combo/feature, string array with choices) is proved to reject exactly the values violating type/choices/range and to return a valid value; set_value stores the validated value. Resolution: augment > yielding parent > own value is proved on the real get_option_and_value_for. Precedence: for source dictionaries of ANY size and an arbitrary key, the value the top-level merge hands to the store is the one from the command line, else the machine file, else project(default_options), else what the store held; the value the subproject merge hands to the store follows the documented order (command-line subp:opt, machine-file subp:opt, subproject(default_options:), parent subp:opt, [a global command-line/machine-file opt keeps the top-level value], the subproject\'s own default_options). Prefix: sysconfdir/localstatedir/sharedstatedir are reset from the table entry of the SANITIZED prefix, else their default; the prefix entry is split off and every other entry handed on unchanged. The end-to-end precedence is also checked exhaustively over all source subsets through the real OptionStore (bounded stand-in).',
+    level_note='Assumed: set_user_option as a MODEL (the store then holds the given value under the given key; only declared dependents change; the global-key/project-option aliasing inside it is not modelled), OptionKey.evolve sets the subproject and is injective on global keys (checked bounded on the real class), iteration over a dict visits every key once in arbitrary order, listify_array_value, key normalisation, option lookup, sanitize_prefix as an abstract normal form (trusted contracts); int() of a string through the abstract py_int_ok/py_int_val; mlog calls are effects. NOT proved (bounded only): set_option incl. buildtype dependents, validation inside set_user_option, the composition merge -> store -> get_value_for.',
     not_decided=['machine-file parsing, optinterpreter and Environment plumbing', 'cross-source interaction of buildtype with explicit debug/optimization (not stated)'],
 )
 PROPS['C14'] = dict(
